@@ -102,6 +102,7 @@ func fsPoint(fr *frame, op, path string) bool {
 		th = sched.cur.id
 	}
 	if sched != nil && len(sched.threads) > 1 {
+		sched.atProc = true
 		sched.yield(nil)
 	}
 	// recorded when the operation actually executes (after the scheduling point)
@@ -594,6 +595,7 @@ func init() {
 			th = sched.cur.id
 		}
 		if sched != nil && len(sched.threads) > 1 {
+			sched.atProc = true
 			sched.yield(nil)
 		}
 		vfs.ops = append(vfs.ops, fmt.Sprintf("p%d:yield", th))
@@ -605,10 +607,12 @@ func init() {
 	}
 	intrinsics["verifSpawn"] = func(fr *frame, a []value) value {
 		// start a "process": an interpreted goroutine; scheduling points are the FS operations
+		nextSpawnIsProcess = true
 		spawnGoroutine(fr, nil, a[0], nil)
 		return nil
 	}
 	intrinsics["verifJoin"] = func(fr *frame, a []value) value {
+		sched.atProc = true
 		sched.yield(func() bool {
 			for _, t := range sched.threads {
 				if t.id != 0 && !t.done {
